@@ -38,6 +38,24 @@ fn one<const D: usize>(id: &str, rng: &mut Rng, out: &mut Out, nq: usize, nops: 
         let (p, _) = w.pick_point(rng, 8);
         let _ = w.do_insert(p, false, rng);
     }
+    // slot reuse: remove an INTERIOR vertex (the hull is unaffected), then insert a far exterior
+    // point, which takes the freed slot with a newer key version and becomes a hull vertex
+    for _ in 0..rng.below(3) {
+        let mut on_hull: std::collections::HashSet<_> = std::collections::HashSet::new();
+        for (_, c) in w.dt.cells() {
+            if let Some(nb) = c.neighbors() {
+                for (i, n) in nb.iter().enumerate() {
+                    if n.is_none() { for (j, vk) in c.vertices().iter().enumerate() { if j != i { on_hull.insert(*vk); } } }
+                }
+            } else { for vk in c.vertices() { on_hull.insert(*vk); } }
+        }
+        let interior: Vec<_> = w.live_keys().into_iter().filter(|k| !on_hull.contains(k)).collect();
+        if interior.is_empty() || w.dt.number_of_vertices() <= D + 2 { break; }
+        let vk = *rng.pick(&interior);
+        let _ = w.do_remove(Some(vk), rng);
+        let (p, _) = w.pick_point_class(rng, 8, 4);
+        let _ = w.do_insert(p, false, rng);
+    }
     if w.dt.number_of_cells() == 0 { return; }
     let Ok(hull) = Hull::<D>::from_triangulation(w.dt.as_triangulation()) else { return };
     out.case(id, "hull", &format!("D={D} fam={}", ps.family));
@@ -76,6 +94,9 @@ fn one<const D: usize>(id: &str, rng: &mut Rng, out: &mut Out, nq: usize, nops: 
     tri::export(&w.dt, &mut ids, out);
     w.ids = ids;
     // ---- staleness: apply operations (successful, skipped, failing) and query the OLD hull
+    let Ok(hull0) = Hull::<D>::from_triangulation(w.dt.as_triangulation()) else { return };
+    let fp0 = fingerprint(w.dt.tds());
+    let g_hull0 = w.dt.tds().generation();
     let mut cur_hull = hull;
     for _ in 0..nops {
         let before = fingerprint(w.dt.tds());
@@ -94,6 +115,10 @@ fn one<const D: usize>(id: &str, rng: &mut Rng, out: &mut Out, nq: usize, nops: 
         let probe = { let mut p = [0.0f64; D]; p[0] = 0.25; p };
         let qs = hull_queries(&cur_hull, &w, &probe);
         lines.push(format!("gen {op} {} {g0} {g1} {}", (before != after) as u8, qs.join(" ")));
+        // the hull created at the start must stay stale for as long as the triangulation differs
+        // from the one it was created from, however many operations lie in between
+        let qs0 = hull_queries(&hull0, &w, &probe);
+        lines.push(format!("gen0 {op} {} {g_hull0} {g1} {}", (after != fp0) as u8, qs0.join(" ")));
         // a fresh hull for the next round (when possible)
         if w.dt.number_of_cells() == 0 { break; }
         match Hull::<D>::from_triangulation(w.dt.as_triangulation()) { Ok(h) => cur_hull = h, Err(_) => break }
@@ -102,7 +127,53 @@ fn one<const D: usize>(id: &str, rng: &mut Rng, out: &mut Out, nq: usize, nops: 
     out.end();
 }
 
+/// a hull kept across a removal down to the bootstrap state and a re-bootstrap with another point
+fn reboot<const D: usize>(id: &str, rng: &mut Rng, out: &mut Out) {
+    let mut w: World<D> = hist::start_empty::<D>(1);
+    let pts = gens::to_f(&gens::general_position(rng, D, D + 2, 6), 1.0, 0.0);
+    for p in pts.iter().take(D + 1) { let _ = w.do_insert(gens::arr::<D>(p), false, rng); }
+    if w.dt.number_of_cells() == 0 { return; }
+    let Ok(hull0) = Hull::<D>::from_triangulation(w.dt.as_triangulation()) else { return };
+    let fp0 = fingerprint(w.dt.tds());
+    let g_hull0 = w.dt.tds().generation();
+    out.case(id, "hull", &format!("D={D} fam=reboot"));
+    let mut lines: Vec<String> = Vec::new();
+    let probe = { let mut p = [0.0f64; D]; p[0] = 0.25; p };
+    for step in 0..3 {
+        let op = match step {
+            0 => { let keys = w.live_keys(); let vk = *rng.pick(&keys); let _ = w.do_remove(Some(vk), rng); "remove" }
+            1 => { let _ = w.do_insert(gens::arr::<D>(&pts[D + 1]), false, rng); "insert" }
+            _ => { let (p, _) = w.pick_point_class(rng, 8, 4); let _ = w.do_insert(p, false, rng); "insert" }
+        };
+        let after = fingerprint(w.dt.tds());
+        let g1 = w.dt.tds().generation();
+        let qs0 = hull_queries(&hull0, &w, &probe);
+        lines.push(format!("gen0 {op} {} {g_hull0} {g1} {}", (after != fp0) as u8, qs0.join(" ")));
+    }
+    if w.dt.number_of_cells() > 0 {
+        if let Ok(h) = Hull::<D>::from_triangulation(w.dt.as_triangulation()) {
+            for fh in h.facets() {
+                let fi = fh.facet_index() as usize;
+                if let Some(c) = w.dt.tds().get_cell(fh.cell_key()) {
+                    let vks: Vec<_> = c.vertices().iter().enumerate().filter(|(i, _)| *i != fi).map(|(_, k)| *k).collect();
+                    let ids = w.vk_ids(&vks);
+                    lines.push(format!("hf {}", ids.iter().map(|x| x.to_string()).collect::<Vec<_>>().join(" ")));
+                }
+            }
+        }
+    }
+    let mut ids: Ids = std::mem::take(&mut w.ids);
+    tri::export(&w.dt, &mut ids, out);
+    for l in lines { out.line(&l); }
+    out.end();
+}
+
 pub fn run(cfg: &Cfg, rng: &mut Rng, out: &mut Out) {
+    for i in 0..4 {
+        reboot::<2>(&format!("rb2_{i}"), rng, out);
+        reboot::<3>(&format!("rb3_{i}"), rng, out);
+        reboot::<4>(&format!("rb4_{i}"), rng, out);
+    }
     let thorough = cfg.tier == "thorough";
     let n = if thorough { 400 } else { 120 };
     for i in 0..n {
